@@ -253,10 +253,10 @@ DEFAULT_CFG = dict(max_chain=4, p_annot=0.0, p_ring=0.25, p_sym=0.3, p_branch=0.
                    max_branches=3, max_rings_per_node=3, max_open=3, orders=ORDERS)
 
 
-def gen_ast(R, names=('A', 'B', 'C'), max_nodes=8, **kw):
+def gen_ast(R, names=('A', 'B', 'C'), max_nodes=8, min_nodes=1, **kw):
     cfg = dict(DEFAULT_CFG)
     cfg.update(kw)
-    budget = [R.randint(1, max_nodes)]
+    budget = [R.randint(min(min_nodes, max_nodes), max_nodes)]
     st = _State()
     chain = gen_chain(R, st, list(names), budget, 0, None, cfg)
     if st.open:
